@@ -1,4 +1,4 @@
-package main
+package syncrun
 
 import (
 	"encoding/json"
@@ -88,7 +88,7 @@ func syncPlan(prop, tier string, seed uint64) (runs []syncRun, crashIsViolation 
 	return
 }
 
-func runSync(prop string, args []string) {
+func Run(prop string, args []string) {
 	fs := flag.NewFlagSet(prop, flag.ExitOnError)
 	replay := fs.String("replay", "", "replay file")
 	depthOverride := fs.Int("depth", 0, "override depth")
